@@ -30,7 +30,8 @@ LAYOUTS = {'flux_surface': [0, 3, 1, 2], 'v_parallel': [0, 2, 1, 3], 'poloidal':
 K_LATEST_LOAD = 'grid.loadFromFile:max-lexicographic-t>=1e6'
 K_LATEST_SETUP = 'setups.setupFromFile:max-lexicographic-t>=1e6'
 K_RP = 'constants:rp-not-roundtripped'
-K_FINAL_ROWS = 'fullSimulation:final-window-rows'
+K_FLOAT_FINAL = 'fullSimulation:float-dt-final-block'
+K_FLOAT_TRUNC = 'setups.setupFromFile:non-integer-time-truncated'
 K_RESTART_ROWS = 'fullSimulation:restart-unaligned-rows'
 
 
@@ -498,6 +499,19 @@ def check_const(chk, cases, results):
 # ------------------------------------------------------------------------------------------------
 # (c) the driver with stand-in physics
 # ------------------------------------------------------------------------------------------------
+def ckpt_name(prefix, k, dt):
+    """file name of the checkpoint of step k: the driver's t is the int 0 in a new run and k*dt afterwards"""
+    t = 0 if k == 0 else k * dt
+    return '{0}_{1:06}.h5'.format(prefix, t)
+
+
+def step_of_name(name, dt):
+    """step index of a checkpoint file name (None if its time is not a multiple of dt)"""
+    t = float(os.path.basename(name).split('_', 1)[1][:-3])
+    k = t / dt
+    return int(round(k)) if abs(k - round(k)) < 1e-9 else None
+
+
 def _snapshot(folder, dt):
     files = sorted(os.path.basename(p) for p in glob.glob(os.path.join(folder, '*.h5')))
     rows = []
@@ -512,7 +526,8 @@ def _row_key(row, dt):
     t = float(cols[0])
     if all(float(x) == 0.0 for x in cols[1:]):
         return '-'
-    return str(int(round(t)) // dt) if float(int(round(t))) == t and int(round(t)) % dt == 0 else 'bad:' + cols[0]
+    k = t / dt
+    return str(int(round(k))) if abs(k - round(k)) < 1e-9 else 'bad:' + cols[0]
 
 
 def _check_folder(folder, npts, dt):
@@ -535,15 +550,15 @@ def _check_folder(folder, npts, dt):
             cache[j] = x
         return cache[k]
     for p in sorted(glob.glob(os.path.join(folder, 'grid_*.h5'))):
-        t = int(os.path.basename(p).split('_')[-1].split('.')[0])
+        k = step_of_name(p, dt)
         arr, order = D.read_dataset(p)
-        if t % dt != 0:
+        if k is None:
             bad.append((os.path.basename(p), 'time not a multiple of dt'))
             continue
-        exp = field(t // dt).transpose(order).astype(np.float64)
+        exp = field(k).transpose(order).astype(np.float64)
         if order != [0, 2, 1, 3] or arr.shape != exp.shape or not (arr == exp).all():
-            bad.append((os.path.basename(p), 'content is not step^%d of the initial field (layout %r)' % (t // dt, order)))
-        q = os.path.join(folder, 'phi_{:06}.h5'.format(t))
+            bad.append((os.path.basename(p), 'content is not step^%d of the initial field (layout %r)' % (k, order)))
+        q = os.path.join(folder, 'phi_' + os.path.basename(p)[len('grid_'):])
         if not os.path.exists(q):
             bad.append((os.path.basename(q), 'missing'))
         else:
@@ -575,15 +590,17 @@ def driver_case(c):
                 return out
         out['bad_files'] = _check_folder(os.path.join(d, 'simulation_0'), c['npts'], c['dt'])
         gfiles = [f for f in out['segs'][-1]['files'] if f.startswith('grid_')]
-        tfin = max(int(f.split('_')[-1].split('.')[0]) for f in gfiles)
-        out['t_final'] = tfin
-        if c.get('unsplit_ranks'):
+        kfin = max((step_of_name(f, c['dt']) or 0) for f in gfiles)
+        out['k_final'] = kfin
+        tfin = kfin * c['dt']
+        if c.get('unsplit_ranks') and float(tfin) == int(tfin):
+            tfin = int(tfin)
             r = D.run_driver(c['unsplit_ranks'], du, tfin, c['S'], const_file='c.json', seed=c['seed'] + 77)
             files, rows = _snapshot(os.path.join(du, 'simulation_0'), c['dt'])
             out['unsplit'] = {'outcome': r['outcome'], 'detail': r['detail'][:300], 'files': files, 'rows': rows}
             if r['outcome'] == 'ok':
                 out['unsplit']['bad_files'] = _check_folder(os.path.join(du, 'simulation_0'), c['npts'], c['dt'])
-                name = 'grid_{:06}.h5'.format(tfin)
+                name = ckpt_name('grid', kfin, c['dt'])
                 same = False
                 pa, pb = os.path.join(d, 'simulation_0', name), os.path.join(du, 'simulation_0', name)
                 if os.path.exists(pa) and os.path.exists(pb):
@@ -603,21 +620,25 @@ def gen_driver_cases(chk, rng):
     for i in range(n):
         S = rng.choice([1, 1, 2, 3, 3, 4, 5, 7])
         dt = rng.choice([1, 2, 2, 3])
+        fdt = i % 7 == 3
+        if fdt:
+            dt = rng.choice([0.5, 2.0])
+        keep_aligned = fdt and rng.random() < 0.6
         npts = rng.choice([[4, 4, 4, 4], [5, 4, 6, 4], [6, 6, 4, 7]])
         nseg = rng.choice([1, 2, 2, 2, 3])
         segs = []
         cur = 0
         for s in range(nseg):
             add = rng.randint(0, 2 * S + 2) if s else rng.randint(0, 3 * S + 1)
-            if i % 5 == 0 and s == 0 and S > 1:
+            if (i % 5 == 0 and s == 0 and S > 1) or keep_aligned:
                 add = S * rng.randint(0, 2)            # aligned stop
             target = cur + add
             stop = None
-            tEnd = target * dt + rng.randint(0, dt - 1)
-            if add >= 1 and rng.random() < 0.35:
+            tEnd = int(target * dt) + (rng.randint(0, dt - 1) if isinstance(dt, int) else 0)
+            if add >= 1 and (rng.random() < 0.35 or int(int(target * dt) // dt) != target):
                 # the wall clock stops the run after `add` iterations although tEnd is later
                 stop = add
-                tEnd = (target + rng.randint(1, 4)) * dt
+                tEnd = int((target + rng.randint(1, 4)) * dt) + 1
             nr = rng.choice([1, 1, 2, 2, 3, 4, 6, 8])
             grids_ok = [p for p in (1, 2, 3, 4, 6, 8) if any(valid_grid(npts, g) for g in factor_pairs(p))]
             if nr not in grids_ok:
@@ -634,7 +655,7 @@ def driver_model_requests(c):
     """one ckrun request per segment; the start of a restarted segment is the model's previous end"""
     reqs = []
     for i, (nr, tEnd, stop) in enumerate(c['segs']):
-        tN = tEnd // c['dt']
+        tN = int(tEnd // c['dt'])
         orc = '-' if stop is None else '1' * (stop - 1) + '0'
         reqs.append((c['S'], tN, orc))
     return reqs
@@ -660,101 +681,118 @@ def check_driver(chk, cases, results):
                               'lines': lines.split()})
     for ci, (c, r) in enumerate(zip(cases, results)):
         S, dt = c['S'], c['dt']
+        fdt = not isinstance(dt, int)
         stops = [m['ti'] for m in model[ci]]
         aligned = all(s % S == 0 for s in stops[:-1])
         st = 'driver-%dseg-%s-%s' % (len(c['segs']), 'aligned' if aligned else 'unaligned',
                                      'S1' if S == 1 else ('endsave' if stops[-1] % S == 0 else 'endpartial'))
         if any(s[2] is not None for s in c['segs']):
             st += '-wallclock'
+        if fdt:
+            st += '-floatdt'
         chk.count(('driver', json.dumps(c, sort_keys=True)), nontrivial=(stops[-1] > 0), stratum=st,
                   sample={'saveStep': S, 'dt': dt, 'npts': c['npts'], 'segments(nranks,tEnd,stop_after)': c['segs'],
                           'model_stop_points': stops})
         rep = {'kind': 'driver', 'case': c}
-        if not isinstance(r, dict):
-            chk.violation('fullSimulation:exception', 'driver case raised %r: %r' % (r, c), rep)
-            continue
-        bad_seg = [s for s in r['segs'] if s['outcome'] != 'ok']
-        if bad_seg:
-            chk.violation('fullSimulation:' + bad_seg[0]['outcome'],
-                          'driver run failed: %s %s case %r' % (bad_seg[0]['outcome'], bad_seg[0]['detail'], c), rep)
-            continue
-        # --- model comparison, segment by segment
-        mfiles = set()
-        prev_rows = 0
-        mismatch = None
-        for si, (sg, m) in enumerate(zip(r['segs'], model[ci])):
-            for k in m['files']:
-                mfiles.add('grid_{:06}.h5'.format(k * dt))
-                mfiles.add('phi_{:06}.h5'.format(k * dt))
-            if set(sg['files']) != mfiles:
-                mismatch = ('files after segment %d: impl %r, model %r' % (si, sg['files'], sorted(mfiles)))
-                break
-            new = [_row_key(x, dt) for x in sg['rows'][prev_rows:]]
-            prev_rows = len(sg['rows'])
-            if new != m['lines']:
-                mismatch = ('rows of phiDat.txt appended by segment %d: impl %r, model %r' % (si, new, m['lines']))
-                break
-        # --- direct oracles (independent of the model)
-        T = stops[-1]
+        # a float dt (t, ti are floats in the driver): which known weakness this history runs into, if any
+        float_key = None
+        if fdt:
+            for si, e in enumerate(stops):
+                if e % S != 0:
+                    float_key = K_FLOAT_FINAL      # range(1, ti % saveStep + 1) with a float ti
+                    break
+                if si + 1 < len(stops) and e > 0 and float(e * dt) != int(e * dt):
+                    float_key = K_FLOAT_TRUNC      # int(<name>.split('.')[0]) drops the fraction of t
+                    break
         problems = []
-        if r.get('bad_files'):
-            problems.append(('fullSimulation:checkpoint-content', 'checkpoint contents: %r' % (r['bad_files'][:3],)))
-        # the run must end at the time the arguments ask for: min(tEnd // dt, wall-clock stop), and resume where it stopped
-        exp_end = 0
-        for (nr, tEnd, stop) in c['segs']:
-            tN = tEnd // dt
-            exp_end = max(exp_end, tN) if stop is None else max(exp_end, min(tN, exp_end + stop))
-        if r['t_final'] != exp_end * dt:
-            problems.append(('fullSimulation:final-time', 'final checkpoint time %d, expected %d' % (r['t_final'], exp_end * dt)))
-        # files: t = 0, every multiple of saveStep up to the end, every stop point
-        exp_files = set()
-        e = 0
-        seen_stops = []
-        for (nr, tEnd, stop) in c['segs']:
-            tN = tEnd // dt
-            e = max(e, tN) if stop is None else max(e, min(tN, e + stop))
-            seen_stops.append(e)
-        for k in [0] + [k for k in range(1, exp_end + 1) if k % S == 0] + seen_stops:
-            exp_files.add('grid_{:06}.h5'.format(k * dt))
-            exp_files.add('phi_{:06}.h5'.format(k * dt))
-        if set(r['segs'][-1]['files']) != exp_files:
-            problems.append(('fullSimulation:checkpoint-set', 'checkpoints %r, expected %r'
-                             % (r['segs'][-1]['files'], sorted(exp_files))))
-        u = r.get('unsplit')
-        if u:
-            if u['outcome'] != 'ok':
-                problems.append(('fullSimulation:' + u['outcome'], 'unsplit run failed ' + u['detail']))
-            else:
-                if not u['final_same'] or u.get('bad_files'):
-                    problems.append(('fullSimulation:restart-state', 'final checkpoint of the restarted run differs from the '
-                                     'uninterrupted run'))
-                extra = set(r['segs'][-1]['files']) - set(u['files'])
-                lost = set(u['files']) - set(r['segs'][-1]['files'])
-                stop_names = set()
-                for k in seen_stops[:-1]:
-                    stop_names.add('grid_{:06}.h5'.format(k * dt))
-                    stop_names.add('phi_{:06}.h5'.format(k * dt))
-                if lost or not extra <= stop_names:
-                    problems.append(('fullSimulation:restart-files', 'restarted folder lacks %r / has unexpected %r'
-                                     % (sorted(lost), sorted(extra - stop_names))))
-        # rows: every time 0..T exactly once, no zero rows; and split rows == unsplit rows (as multisets)
-        keys = sorted(_row_key(x, dt) for x in r['segs'][-1]['rows'])
-        want = sorted(str(k) for k in range(T + 1))
-        rows_ok = keys == want
-        if not rows_ok:
-            if len(c['segs']) == 1 or aligned:
-                kk = K_FINAL_ROWS if T % S != 0 else 'fullSimulation:rows'
-            else:
-                kk = K_RESTART_ROWS
-            problems.append((kk, 'phiDat.txt has rows for times %r; expected one row per step 0..%d (saveStep %d, stop points %r)'
-                             % (keys, T, S, stops)))
-        if u and u['outcome'] == 'ok' and sorted(u['rows']) != sorted(r['segs'][-1]['rows']):
-            if aligned:
-                problems.append(('fullSimulation:restart-rows-aligned',
-                                 'rows of the restarted run differ from the uninterrupted run although every stop point is a '
-                                 'multiple of saveStep'))
-            elif rows_ok:
-                problems.append((K_RESTART_ROWS, 'rows of the restarted run differ from the uninterrupted run'))
+        mismatch = None
+        if not isinstance(r, dict):
+            problems.append(('fullSimulation:exception', 'driver case raised %r' % (r,)))
+        else:
+            bad_seg = [s for s in r['segs'] if s['outcome'] != 'ok']
+            if bad_seg:
+                problems.append(('fullSimulation:' + bad_seg[0]['outcome'],
+                                 'driver run failed: %s %s' % (bad_seg[0]['outcome'], bad_seg[0]['detail'])))
+        if not problems:
+            # --- model comparison, segment by segment
+            mfiles = set()
+            prev_rows = 0
+            for si, (sg, m) in enumerate(zip(r['segs'], model[ci])):
+                for k in m['files']:
+                    mfiles.add(ckpt_name('grid', k, dt))
+                    mfiles.add(ckpt_name('phi', k, dt))
+                if set(sg['files']) != mfiles:
+                    mismatch = ('files after segment %d: impl %r, model %r' % (si, sg['files'], sorted(mfiles)))
+                    break
+                new = [_row_key(x, dt) for x in sg['rows'][prev_rows:]]
+                prev_rows = len(sg['rows'])
+                if new != m['lines']:
+                    mismatch = ('rows of phiDat.txt appended by segment %d: impl %r, model %r' % (si, new, m['lines']))
+                    break
+            # --- direct oracles (independent of the model)
+            T = stops[-1]
+            if r.get('bad_files'):
+                problems.append(('fullSimulation:checkpoint-content', 'checkpoint contents: %r' % (r['bad_files'][:3],)))
+            # the run must end at the step the arguments ask for: min(tEnd // dt, wall-clock stop), and resume where it stopped
+            e = 0
+            seen_stops = []
+            for (nr, tEnd, stop) in c['segs']:
+                tN = int(tEnd // dt)
+                e = max(e, tN) if stop is None else max(e, min(tN, e + stop))
+                seen_stops.append(e)
+            exp_end = e
+            if r['k_final'] != exp_end:
+                problems.append(('fullSimulation:final-time', 'final checkpoint at step %d, expected %d' % (r['k_final'], exp_end)))
+            # files: t = 0, every multiple of saveStep up to the end, every stop point
+            exp_files = set()
+            for k in [0] + [k for k in range(1, exp_end + 1) if k % S == 0] + seen_stops:
+                exp_files.add(ckpt_name('grid', k, dt))
+                exp_files.add(ckpt_name('phi', k, dt))
+            if set(r['segs'][-1]['files']) != exp_files:
+                problems.append(('fullSimulation:checkpoint-set', 'checkpoints %r, expected %r'
+                                 % (r['segs'][-1]['files'], sorted(exp_files))))
+            u = r.get('unsplit')
+            if u:
+                if u['outcome'] != 'ok':
+                    problems.append(('fullSimulation:' + u['outcome'], 'unsplit run failed ' + u['detail']))
+                else:
+                    if not u['final_same'] or u.get('bad_files'):
+                        problems.append(('fullSimulation:restart-state', 'final checkpoint of the restarted run differs from '
+                                         'the uninterrupted run'))
+                    extra = set(r['segs'][-1]['files']) - set(u['files'])
+                    lost = set(u['files']) - set(r['segs'][-1]['files'])
+                    stop_names = set()
+                    for k in seen_stops[:-1]:
+                        stop_names.add(ckpt_name('grid', k, dt))
+                        stop_names.add(ckpt_name('phi', k, dt))
+                    if lost or not extra <= stop_names:
+                        problems.append(('fullSimulation:restart-files', 'restarted folder lacks %r / has unexpected %r'
+                                         % (sorted(lost), sorted(extra - stop_names))))
+            # rows: every time 0..T exactly once, no zero rows; and split rows == unsplit rows
+            keys = sorted(_row_key(x, dt) for x in r['segs'][-1]['rows'])
+            want = sorted(str(k) for k in range(T + 1))
+            rows_ok = keys == want
+            if not rows_ok:
+                kk = 'fullSimulation:rows' if aligned else K_RESTART_ROWS
+                problems.append((kk, 'phiDat.txt has rows for times %r; expected one row per step 0..%d (saveStep %d, stop '
+                                     'points %r)' % (keys, T, S, stops)))
+            same_ranks = len(set([s[0] for s in c['segs']] + [c.get('unsplit_ranks')])) == 1
+            if u and u['outcome'] == 'ok':
+                # full text when all runs used the same number of ranks (same reduction order), else the time column
+                ra = sorted(r['segs'][-1]['rows']) if same_ranks else keys
+                rb = sorted(u['rows']) if same_ranks else sorted(_row_key(x, dt) for x in u['rows'])
+                if ra != rb:
+                    if aligned:
+                        problems.append(('fullSimulation:restart-rows-aligned',
+                                         'rows of the restarted run differ from the uninterrupted run although every stop point '
+                                         'is a multiple of saveStep'))
+                    elif rows_ok:
+                        problems.append((K_RESTART_ROWS, 'rows of the restarted run differ from the uninterrupted run'))
+        if float_key and (problems or mismatch):
+            # one report under the key of the float-dt weakness this history was predicted to hit
+            chk.violation(float_key, 'float dt=%r: %s | case %r' % (dt, (problems + [(None, mismatch)])[0][1], c),
+                          dict(rep, oracle=float_key))
+            continue
         for key, what in problems:
             chk.violation(key, what + ' | case %r' % (c,), dict(rep, oracle=key))
         if mismatch:
@@ -880,14 +918,14 @@ def run():
         'Python str.format "{:06}" and string comparison are modelled by CkNames.v (ck_fmt06, ck_lex_lt) and compared with '
         'Python on every multi-checkpoint case',
         'constants printer/parser: tested (part b), not modelled in Coq',
-        'dt is a positive integer (Driver.v counts time in steps): with a float dt in the constants file the real driver '
-        'raises IndexError at the first DiagnosticCollector.collect (float array index), so no history exists to compare']
+        'Driver.v counts time in steps; histories with a float dt (0.5, 2.0) are compared with the same model through '
+        't = k*dt (exact in binary64 for these values)']
     return chk.finish(
         proof,
         rule='(a) seeded checkpoint cases: npts in [3,8]^4, save grid x load grid over all factorisations of 1..8 ranks, 3 layouts, '
              'loadFromFile / setupFromFile, 1-4 checkpoints with times of 1-8 digits; non-trivial = more than one rank on either side. '
              '(b) constants files: literal / symbolic / modified objects, shuffled keys. (c) driver histories with stand-in physics: '
-             'saveStep 1..7, dt 1..3, 1-3 segments, stop by tEnd or by the wall-clock oracle, 1-8 ranks per segment; non-trivial = at '
+             'saveStep 1..7, dt 1..3 (and float 0.5 / 2.0 in one history of seven), 1-3 segments, stop by tEnd or by the wall-clock oracle, 1-8 ranks per segment; non-trivial = at '
              'least one step. distinct = distinct case description',
         extra={'coq_vm_compute_crosschecked': ncoq, 'real_physics_runs': nreal,
                'parts': {'checkpoint_cases': len(acases), 'constants_cases': len(bcases), 'driver_histories': len(dcases)}},
